@@ -1,6 +1,7 @@
 mod r#gen;
 mod props;
 mod run;
+mod widen;
 mod wire;
 
 use std::alloc::{GlobalAlloc, Layout, System};
@@ -52,6 +53,21 @@ fn main() {
                 writeln!(w, "{}", run::exec_guarded(&line)).unwrap();
                 // one result per line, visible at once: a hang is attributed to the right operation
                 w.flush().unwrap();
+            }
+        }
+        Some("widen") => {
+            // disagreeing operations on stdin -> extra operations (with expectations) around them
+            let prop = &args[2];
+            let stdin = std::io::stdin();
+            let mut res = Vec::new();
+            for line in stdin.lock().lines() {
+                widen::widen(prop, &line.unwrap(), &mut res);
+            }
+            let mut seen = std::collections::HashSet::new();
+            for l in res {
+                if seen.insert(l.clone()) {
+                    println!("{l}");
+                }
             }
         }
         _ => {
